@@ -162,3 +162,21 @@ pub fn c19__batch_one_index_any_depth() {
     let r2 = proof.into_openings(&[leaf], &[i]);
     core::mem::forget((r, r2));
 }
+
+//@ harness=c19__batch_index_equal_num_leaves tier=thorough kind=prove cap=3600 edge :: concrete tiny batch instance (depth 1, i.e. 2 leaves): an index equal to the number of leaves (2) is rejected by get_root / verify_batch, alone and next to a valid index, for all digests
+#[kani::proof]
+#[kani::unwind(8)]
+#[kani::stub(alloc::fmt::format, no_fmt)]
+pub fn c19__batch_index_equal_num_leaves() {
+    let leaf: [D64; 2] = kani::any();
+    let node: [D64; 2] = kani::any();
+    let root: D64 = kani::any();
+    let p1 = BatchMerkleProof::<HX> { nodes: vec![vec![node[0]]], depth: 1 };
+    let r1 = p1.get_root(&[2], &[leaf[0]]);
+    assert!(r1.is_err());
+    let p2 = BatchMerkleProof::<HX> { nodes: vec![vec![node[0]], vec![node[1]]], depth: 1 };
+    let r2 = MerkleTree::<HX>::verify_batch(&root, &[0, 2], &leaf, &p2);
+    assert!(r2.is_err());
+    kani::cover!(true, "VERIF-COVER");
+    core::mem::forget((p1, p2, r1, r2));
+}
